@@ -6,9 +6,11 @@ From RZ.model Require Import Types.
 Import ListNotations.
 Local Open Scope string_scope.
 
-(* Cast.il_exec *)
-Definition cast_il_exec (target src : vtype) (x : pure) : pure :=
-  PCast (vt_w target) (if vt_sg target && vt_sg src then PMsb x else PBool false) x.
+(* Cast.il_exec: the fill bit is the sign bit of the source when both types are signed, and (since the fix: commit for D3) also when a
+   signed source is widened to an unsigned type -- except for a non-negative constant, whose sign bit is known to be clear *)
+Definition cast_il_exec (target src : vtype) (nonneg_const : bool) (x : pure) : pure :=
+  PCast (vt_w target)
+        (if (vt_sg target && vt_sg src) || (vt_sg src && (vt_w src <? vt_w target)%N && negb nonneg_const) then PMsb x else PBool false) x.
 
 (* BitOp.il_exec (unary ops ignore b) *)
 Definition bitop_il_exec (op : string) (aty : vtype) (a b : pure) : pure :=
